@@ -28,7 +28,7 @@ FLOORS = {'quick': {'fresh-compare': 4000, 'shadow': 600, 'copy-independence': 1
           'thorough': {'fresh-compare': 40000, 'shadow': 6000, 'copy-independence': 1500}}
 MANDATORY_TAGS = ['curve', 'surface', 'volume', 'rational', 'container', 'copy', 'op:reverse', 'op:transpose', 'op:flip', 'op:insert',
                   'op:remove', 'op:refine', 'op:weights', 'op:ctrlpts', 'op:delta', 'op:translate', 'op:degree', 'op:knotvector',
-                  'op:container-add', 'op:container-transform', 'op:container-deepcopy', 'read-mutate-read']
+                  'op:container-add', 'op:container-transform', 'op:container-deepcopy', 'read-mutate-read', 'op:container-delta-one-direction']
 TECHNIQUE = ("runtime monitoring: history driver with an online differential oracle (every read of a derived view vs the same read "
              "on a freshly built object with the same primary definition) plus a shadow model of the primary state, over seeded "
              "mutator/reader histories incl. copies and containers sharing elements")
@@ -473,7 +473,16 @@ def check(case, ctx):
                 mutators += 1
                 continue
             elif op == 'container-delta':
-                if rng.random() < 0.5:
+                r_ = rng.random()
+                if cont.pdimension > 1 and r_ < 0.4:
+                    # the per-direction setters of surface / volume containers
+                    dnm = rng.choice('uvw'[:cont.pdimension])
+                    if rng.random() < 0.5:
+                        setattr(cont, 'delta_' + dnm, rng.choice([0.2, 0.25, 0.34, 0.5]))
+                    else:
+                        setattr(cont, 'sample_size_' + dnm, rng.randint(3, 6))
+                    ctx.tag('op:container-delta-one-direction')
+                elif r_ < 0.7:
                     cont.sample_size = rng.randint(3, 5)
                 else:
                     cont.delta = rng.choice([0.2, 0.25, 0.34])
